@@ -94,3 +94,208 @@ def unit_merge_done(tier, pid):
     return {'functions': [prop.discharge(res, tier, pid, lambda m, r: {'note': 'see model text'}, replay_merge)],
             'assumptions': ["Env entries are modelled as maps whose values all have the sort of a status: merge_done_tasks inspects only entry['status'] "
                             '(parametricity abstraction)']}
+
+
+# ---------------------------------------------------------------------------------------
+# C14: Env.from_file / Env.to_file / read_env / write_env
+COMMONF = 'valjean/cambronne/common.py'
+PICKLE_RAISES = ('EOFError', 'UnpicklingError', 'ValueError', 'AttributeError', 'ImportError', 'IndexError', 'MemoryError', 'SomeOtherException')
+
+
+def ev(I, *e):
+    I.trace.append(e)
+
+
+class PathModel(ClassModel):
+    '''pathlib.Path as the string it denotes (assumed: str(Path(a) / b / c) == a + "/" + b + "/" + c up to normalisation)'''
+    name = 'Path'
+    fields = {}
+
+    def m___truediv__(self, I, p, other):
+        o = other if isinstance(other, SV) else lift(other)
+        if o.typ.kind != 'Str':
+            o = I.world.lib.b_str(I, o)
+        return I.alloc('Path', {'s': SV(STR, z3.Concat(I.getfield(p, 's').t, z3.StringVal('/'), o.t))})
+
+
+def make_file_world(entry_val='Enum:TaskStatus'):
+    w = make_world()
+    w.exc_parents.update({'UnpicklingError': 'Exception', 'PicklingError': 'Exception', 'SomeOtherException': 'Exception', 'EOFError': 'Exception',
+                          'MemoryError': 'Exception', 'ImportError': 'Exception', 'FileNotFoundError': 'OSError'})
+    w.globals['Env'] = SClass('Env')
+    w.class_models['Path'] = PathModel(w)
+    w.globals['Path'] = SClass('Path')
+
+    def new_path(I, args, kwargs):
+        (x,) = args
+        x = x if isinstance(x, SV) else lift(x)
+        if x.typ.kind != 'Str':
+            x = I.world.lib.b_str(I, x)
+        return I.alloc('Path', {'s': x})
+    w.construct_hooks['Path'] = new_path
+    lib_str = w.lib.b_str
+
+    def b_str(I, x=''):
+        if isinstance(x, SObj) and x.cls == 'Path':
+            return I.getfield(x, 's')
+        return lib_str(I, x)
+    w.lib.b_str = b_str
+
+    def pickle_load(I, f):
+        '''contract of pickle.load (Python documentation): returns the object, or raises -- UnpicklingError, and "other exceptions may also
+        be raised during unpickling, including (but not necessarily limited to) AttributeError, EOFError, ImportError, and IndexError"'''
+        ev(I, 'pickle.load', f)
+        for exc in PICKLE_RAISES:
+            if I.path.cond(z3.Bool(I.path.name('load_raises_' + exc))):
+                I.raise_(exc)
+        if I.path.cond(z3.Bool(I.path.name('unpickled_is_an_Env'))):
+            return w.class_models['Env'].fresh(I, 'unpickled')
+        return I.alloc('ForeignObject', {})
+
+    def pickle_dump(I, obj, f):
+        ev(I, 'pickle.dump', obj, f)
+        return None
+    w.globals['pickle'] = SNamespace('pickle', {'load': pickle_load, 'dump': pickle_dump})
+
+    def open_file(I, node, scope):
+        args = [I.eval(a, scope) for a in node.args]
+        ev(I, 'open', args[0], args[1] if len(args) > 1 else 'r')
+        if I.path.cond(z3.Bool(I.path.name('open_fails'))):
+            I.raise_('FileNotFoundError' if I.path.cond(z3.Bool(I.path.name('missing'))) else 'OSError')
+        fobj = I.alloc('File', {'path': args[0], 'mode': args[1] if len(args) > 1 else 'r'})
+        return ('file', fobj)
+    w.open_file = open_file
+
+    def new_env(I, args, kwargs):
+        if not args:
+            d = w.lib.empty_of(I, parse_type_(DICT))
+            return I.alloc('Env', {'dictionary': d})
+        (src,) = args
+        if isinstance(src, dict):
+            d = w.lib.empty_of(I, parse_type_(DICT))
+            e = I.alloc('Env', {'dictionary': d})
+            for k, v in src.items():
+                w.class_models['Env'].m___setitem__(I, e, k, v)
+            return e
+        raise Undecided('Env(...) of a symbolic mapping')
+    w.construct_hooks['Env'] = new_env
+    return w
+
+
+def parse_type_(s):
+    from pyvc.values import parse_type
+    return parse_type(s)
+
+
+def c_from_file():
+    return Contract(ENVF, 'Env.from_file', params={'cls': 'Class:Env', 'path': 'Str', 'fmt': 'Str'},
+                    ensures=[('C14-an-environment-or-nothing', 'result is None or isinstance(result, Env)')],
+                    signals={})       # C14: nothing escapes, whatever the file holds
+
+
+def file_setup(I, scope):
+    I.trace = []
+
+
+def c_to_file(whole):
+    return Contract(ENVF, 'Env.to_file', params={'self': 'Obj:Env', 'path': 'Str', 'task_name': 'None' if whole else 'Ref:Name', 'fmt': 'Str'},
+                    requires=[] if whole else ['task_name in self.dictionary'], signals={}, variant='whole-env' if whole else 'one-task')
+
+
+def to_file_check(I, scope, outcome):
+    p = I.path
+    whole = scope.lookup('task_name') is None if not isinstance(scope.lookup('task_name'), SV) else False
+    L = f"{ENVF}::Env.to_file[{'whole-env' if whole else 'one-task'}]"
+    if outcome[0] != 'return':
+        return
+    opens = [e for e in I.trace if e[0] == 'open']
+    dumps = [e for e in I.trace if e[0] == 'pickle.dump']
+    me = scope.lookup('self')
+    p.oblige(f'{L}::post::opens-the-destination-for-writing-once', len(opens) == 1 and opens[0][2] == 'wb' and opens[0][1] is scope.lookup('path'), kind='post',
+             meta={'expr': "exactly one open(path, 'wb')"})
+    p.oblige(f'{L}::post::at-most-one-dump', len(dumps) <= 1, kind='post', meta={'expr': 'pickle.dump is called at most once'})
+    if len(dumps) == 1:
+        obj = dumps[0][1]
+        if whole:
+            ok = obj is me
+            p.oblige(f'{L}::post::dumps-the-whole-environment', bool(ok), kind='post', meta={'expr': 'the dumped object is self'})
+        else:
+            name = scope.lookup('task_name')
+            sc = Scope_(None, {'dumped': obj, 'self': me, 'task_name': name})
+            t = I.spec('isinstance(dumped, Env) and all((k in dumped.dictionary) == (k is task_name) for k in Names) '
+                       'and same(dumped.dictionary[task_name], old(self.dictionary)[task_name])', sc)
+            p.oblige(f'{L}::post::C14-dumps-exactly-the-entry-of-the-task', t, kind='post',
+                     meta={'expr': 'the dumped object is an Env holding exactly {task_name: self[task_name]}'})
+        p.oblige(f'{L}::post::dump-goes-to-the-opened-file', isinstance(dumps[0][2], SObj) and dumps[0][2].cls == 'File', kind='post',
+                 meta={'expr': 'pickle.dump writes into the file opened on path'})
+    p.oblige(f'{L}::frame::environment-untouched', I.spec('same(self.dictionary, old(self.dictionary))', scope), kind='frame',
+             meta={'expr': 'to_file does not modify the environment'})
+
+
+def Scope_(parent, vars):
+    from pyvc.engine import Scope
+    return Scope(parent, vars)
+
+
+def c_read_env():
+    only_done = "all(env.dictionary[k]['status'] == TaskStatus.DONE for k in env.dictionary)"
+
+    def from_file_result(I, base):
+        # contract of Env.from_file as verified by unit from_file: None, or an Env (whose entries carry a status: A-env-entries)
+        if I.path.cond(z3.Bool(I.path.name('file_unreadable'))):
+            return None
+        e = I.world.class_models['Env'].fresh(I, base)
+        I.path.assume(I.spec("all('status' in e.dictionary[k] for k in e.dictionary)", Scope_(None, {'e': e})))
+        return e
+    c_ff = Contract(ENVF, 'Env.from_file', params={'cls': 'Class:Env', 'path': 'Str', 'fmt': 'Str'}, returns=from_file_result, signals={})
+    c = Contract(COMMONF, 'read_env', params={'root': 'Str', 'names': 'Seq[Str]', 'filename': 'Opt[Str]', 'fmt': 'Str'},
+                 ensures=[('C14-only-DONE-entries-are-reported', only_done.replace('env.', 'result.')), ('returns-an-environment', 'isinstance(result, Env)')],
+                 signals={},
+                 loops={0: LoopSpec('for task_name in names', [only_done], vars={'env.dictionary': DICT})})
+    return c, c_ff
+
+
+def unit_from_file(tier, pid):
+    w = make_file_world()
+    res = verify_function(w, c_from_file(), setup=file_setup)
+    return {'functions': [prop.discharge(res, tier, pid, _conc_pickle, _replay_persist)],
+            'assumptions': ['pickle.load signals any Exception subclass (Python documentation), returns an arbitrary object otherwise; open() signals OSError']}
+
+
+def unit_to_file(tier, pid):
+    out = []
+    for whole in (True, False):
+        w = make_file_world()
+        res = verify_function(w, c_to_file(whole), setup=file_setup, extra_check=to_file_check)
+        out.append(prop.discharge(res, tier, pid, _conc_pickle, _replay_persist))
+    return {'functions': out, 'assumptions': ['pickle.dump does not raise for picklable payloads (the property quantifies over picklable payloads)']}
+
+
+def unit_read_env(tier, pid):
+    w = make_file_world()
+    c, c_ff = c_read_env()
+    w.add(c_ff)
+    cm = c_merge_done()
+    cm.modifies = ['self.dictionary']
+    w.add(cm)
+    res = verify_function(w, c, setup=file_setup)
+    return {'functions': [prop.discharge(res, tier, pid, _conc_pickle, _replay_persist)],
+            'assumptions': ['A-env-entries: every entry of a persisted Env carries a status key (entries are written by Env.set_status / the scheduler)']}
+
+
+def _conc_pickle(model, res):
+    out = {}
+    for d in model.decls():
+        n = d.name()
+        if n.startswith(('load_raises_', 'unpickled_is', 'open_fails', 'missing', 'file_unreadable')) and z3.is_true(model[d]):
+            out[n.split('!')[0]] = True
+    return out
+
+
+def _replay_persist(name, inp):
+    from . import persist_native as pn
+    out = pn.sweep('quick', 0)
+    if out['failures']:
+        fl = out['failures'][0]
+        return {'reproduced': True, 'observed': fl['observed'], 'input_found': fl['input'], 'by': 'native persisted-environments sweep'}
+    return {'reproduced': False, 'note': 'native sweep found no failing input'}
